@@ -1227,6 +1227,15 @@ def exec_deepcopy(sess: Session, op: dict, step: int) -> Effect:
     if W.struct_fp(cp) != W.struct_fp(node):
         eff.v('C11', 'copy_structure', step, 'deep copy has a different tree structure')
     try:
+        st = cp.token_store
+        if isinstance(cp, models.RawTreeModel) and st is not None:
+            n_store, n_span = len(list(st)), len(cp.tokens)
+            if cp.first_token is not st.get_first() or cp.last_token is not st.get_last() or n_store != n_span:
+                eff.v('C11', 'copy_not_self_contained', step,
+                      f'deep copy of {type(node).__name__} spans {n_span} token(s) of a store holding {n_store}: not a complete tree in its own store')
+    except Exception as e:
+        eff.v('C11', 'copy_not_self_contained', step, f'deep copy of {type(node).__name__} cannot be inspected: {type(e).__name__}: {e}')
+    try:
         fa = [(t.raw_text, t.claimed) for t in node.tokens if isinstance(t, BlockComment)]
         fb = [(t.raw_text, t.claimed) for t in cp.tokens if isinstance(t, BlockComment)]
         if fa != fb:
